@@ -532,6 +532,18 @@ class Taint:
                             return cb
         if not zero and op['k'] in ('copy', 'move') and not op['pl']['p'] and self.bounded_origin(b, op['pl']['l']):
             return -1
+        # the same slice expression computed twice (`&self.chunks[self.chunk_index..]` in a caller and again in an extracted
+        # helper): an emptiness / length test on the one holds for the other while nothing it reads is stored to in between
+        if lk and not lk[2]:
+            mine = self.slice_canon(b, lk[1])
+            if mine is not None:
+                for cb, ents in self.cmp_blocks(b).items():
+                    if cb in dom and cb != block:
+                        for (k, other, z) in ents:
+                            if isinstance(k, tuple) and k[0] == 'LEN' and not k[2] and k[1] != lk[1] and (z or not zero):
+                                theirs = self.slice_canon(b, k[1])
+                                if theirs is not None and theirs[0] == mine[0] and not self._stored_between(b, cb, block, mine[1] | theirs[1]):
+                                    return cb
         return None
 
     def len_key(self, b, op, depth=0):
@@ -548,7 +560,59 @@ class Taint:
             return ('LEN', base[0], tuple(x[1] for x in base[1]))
         if d[0] == 'assign' and d[1]['rv']['k'] in ('use', 'cast') and d[1]['rv']['op']['k'] in ('copy', 'move'):
             return self.len_key(b, d[1]['rv']['op'], depth + 1)
+        if d[0] == 'assign' and d[1]['rv']['k'] == 'unop' and d[1]['rv']['op'] == 'PtrMetadata' and d[1]['rv']['a']['k'] in ('copy', 'move'):
+            base = b.base_of(d[1]['rv']['a'])       # the length of a slice as the bounds check reads it
+            return ('LEN', base[0], tuple(x[1] for x in base[1]))
         return None
+
+    def slice_canon(self, b, l):
+        """a slice value that is `recv[range]` of a place: (receiver place, description of the range bounds, fields read) - two
+        slices with the same canon are the same slice as long as none of those fields is stored to in between"""
+        ds = b.defs().get(l, [])
+        if len(ds) != 1 or ds[0][0] != 'call' or 'q' not in ds[0][1]['callee'] or ds[0][1]['callee']['q'] != 'core::ops::index::Index::index' \
+                or len(ds[0][1]['args']) != 2:
+            return None
+        t = ds[0][1]
+        rb = b.base_of(t['args'][0])
+        if not rb or t['args'][1]['k'] not in ('copy', 'move'):
+            return None
+        rl = t['args'][1]['pl']['l']
+        rds = b.defs().get(rl, [])
+        if len(rds) != 1 or rds[0][0] != 'assign' or rds[0][1]['rv']['k'] != 'agg' or 'Range' not in (rds[0][1]['rv'].get('adt') or ''):
+            return None
+        bounds = tuple(self.describe(b, o) for o in rds[0][1]['rv']['ops'])
+        fields = set(x[1] for x in rb[1] if isinstance(x[1], str))
+        for o in rds[0][1]['rv']['ops']:
+            if o['k'] in ('copy', 'move'):
+                ob = b.base_of(o)
+                fields |= set(x[1] for x in (ob[1] if ob else []) if isinstance(x[1], str))
+                # follow one copy: `_t = copy self.chunk_index`
+                for d2 in b.defs().get(o['pl']['l'], []) if not o['pl']['p'] else []:
+                    if d2[0] == 'assign' and d2[1]['rv']['k'] == 'use' and d2[1]['rv']['op']['k'] in ('copy', 'move'):
+                        ob2 = b.base_of(d2[1]['rv']['op'])
+                        fields |= set(x[1] for x in (ob2[1] if ob2 else []) if isinstance(x[1], str))
+        return (self.local_desc(b, rb[0]), tuple(x[1] for x in rb[1]), rds[0][1]['rv'].get('adt'), bounds), frozenset(fields)
+
+    def _stored_between(self, b, src_block, dst_block, fields):
+        """may one of the named fields be stored to on a path from src_block to dst_block?"""
+        stores = {bi for bi in b.live for st in b.blocks[bi]['stmts']
+                  if st['k'] == 'assign' and st['pl']['p'] and any(p.get('n') in fields for p in st['pl']['p'] if p['k'] == 'field')}
+        stores |= {bi for bi, t in b.calls() for a in t['args'] if a['k'] in ('copy', 'move') and b.lty(a['pl']['l']).get('k') == 'ref' and b.lty(a['pl']['l']).get('mut')
+                   and any(x[1] in fields for x in ((b.base_of(a) or (None, []))[1]))}
+        if not stores:
+            return False
+
+        def reach(start):
+            seen, w = set(), [start]
+            while w:
+                x = w.pop()
+                if x in seen or b.blocks[x].get('cleanup'):
+                    continue
+                seen.add(x)
+                w.extend(succs(b.blocks[x]['term']))
+            return seen
+        from_src = reach(src_block)
+        return any(sb in from_src and dst_block in reach(sb) - ({sb} if sb != dst_block else set()) for sb in stores)
 
     def bounded_origin(self, b, l, depth=0):
         ds = b.defs().get(l, [])
